@@ -57,6 +57,23 @@ Proof.
   split; [vm_compute; reflexivity|split; [discriminate|vm_compute; reflexivity]].
 Qed.
 
+(* the FIRST block of an account is a height like any other: a competitor for height 1 names the empty account-chain
+   (previous = zero hash-height); when nothing of the account is confirmed and it is forced or wins against the pooled
+   first block, it replaces the whole pooled chain (chain/account_pool.go canRollback after fix 417e0a5) *)
+Theorem C14_first_block_can_be_replaced : forall force a b t, wf a -> sh a = 0%nat -> bheight b = 1 -> bprev b = 0 ->
+  by_height (rchain a) 1 = Some t -> bhash t <> bhash b -> (force = true \/ wins b t) ->
+  add force a b = (mkAcct [b] 0, ROk).
+Proof. exact first_block_replaced. Qed.
+(* the code before the fix looked up the block at height 0 and refused every such competitor, also a forced one (a
+   momentum from sync that confirms another version of an account's first block than the pooled one was refused) *)
+Theorem C14_first_block_competitor_refused_refuted : exists a b, wf a /\ in_u64 (bheight b) /\ pooled a <> [] /\
+  add_tx_with prev_check_old true a [] b = (a, RErrNoPrev) /\ add true a b = (mkAcct [b] 0, ROk).
+Proof.
+  exists (mkAcct [mkBlock 22 11 2 0 0 false; mkBlock 11 0 1 0 0 false] 0), (mkBlock 5 0 1 0 0 false).
+  split; [unfold wf; cbn; repeat split; lia|]. split; [unfold in_u64, two64; cbn; lia|].
+  split; [discriminate|split; vm_compute; reflexivity].
+Qed.
+
 (* TRANSACTIONS that span several heights (a contract receive with its descendant sends is one transaction of the version
    manager, one Pop removes all of it): an accepted transaction - fast-forward, winner at any unconfirmed height, forced -
    becomes the top of the chain on the untouched blocks below its first height; exactly the unconfirmed blocks from that
